@@ -34,7 +34,7 @@ class C14(BaseCheck):
              'scales.thrift.serializer:MessageSerializer.DeserializeThriftCall',
              'scales.varz:VarzSocketWrapper.readAll')
   REQUIRED_ANCHORS = ANCHORS
-  REQUIRED_CLASSES = ('outcome:value', 'outcome:declared-exc', 'outcome:app-exc', 'outcome:void',
+  REQUIRED_CLASSES = ('outcome:value', 'outcome:declared-exc', 'outcome:declared-exc-not-first', 'outcome:app-exc', 'outcome:void',
                       'iface:hello', 'iface:verif', 'iface:ext', 'chunk:1cut', 'chunk:2cut', 'chunk:kcut',
                       'text:nonascii', 'text:empty', 'concurrent', 'two-services', 'short-sends', 'alternating-outcomes')
   ASSUMPTIONS = ('interfaces: the repository\'s hello.Hello plus a hand-written module in the shape the '
@@ -53,10 +53,10 @@ class C14(BaseCheck):
 
   def _gen(self, rng):
     """-> (iface_kind, method, args, kwargs, expected) ; expected = ('value', v) |
-    ('declared', why, code) | ('app', text) | ('void',)"""
+    ('declared', why, code) | ('declared-other', detail, n) | ('declared-third', tag) | ('app', text) | ('void',)"""
     from vlib.gen.verifsvc import ttypes
     k = rng.choice(['hi', 'echo', 'echo', 'add', 'swap', 'flag', 'ping', 'fail', 'vfail', 'vfail-ok',
-                    'blob', 'names', 'extra', 'appexc'])
+                    'blob', 'names', 'extra', 'appexc', 'fail-other', 'fail-third', 'vfail-other'])
     if k == 'hi':
       s = gen_text(rng)
       return 'hello', 'hi', (s,), {}, ('value', 'hi:' + s)
@@ -97,6 +97,15 @@ class C14(BaseCheck):
     if k == 'vfail':
       s = 'no' + gen_text(rng)
       return iface, 'vfail', (s,), {}, ('declared', s, len(s))
+    if k == 'fail-other':      # the second / third declared exception of the method
+      s = 'OTHER:' + gen_text(rng) + 'x'
+      return iface, 'fail', (s,), {}, ('declared-other', s, len(s) * 1000003)
+    if k == 'fail-third':
+      s = 'THIRD:' + gen_text(rng) + 'x'
+      return iface, 'fail', (s,), {}, ('declared-third', s)
+    if k == 'vfail-other':
+      s = 'OTHER:' + gen_text(rng)
+      return iface, 'vfail', (s,), {}, ('declared-other', s, len(s) * 1000003)
     if k == 'vfail-ok':
       return iface, 'vfail', ('ok' + gen_text(rng),), {}, ('void',)
     if k == 'blob':
@@ -115,7 +124,8 @@ class C14(BaseCheck):
     classes = set()
     iface_kind, method, args, kwargs, expected = self._gen(rng)
     classes.add('iface:' + iface_kind)
-    classes.add('outcome:' + {'value': 'value', 'declared': 'declared-exc', 'app': 'app-exc', 'void': 'void'}[expected[0]])
+    classes.add('outcome:' + {'value': 'value', 'declared': 'declared-exc', 'app': 'app-exc', 'void': 'void',
+                              'declared-other': 'declared-exc-not-first', 'declared-third': 'declared-exc-not-first'}[expected[0]])
     for a in list(args) + list(kwargs.values()):
       if isinstance(a, str):
         if a == '':
@@ -172,6 +182,14 @@ class C14(BaseCheck):
         inner = getattr(v, 'inner_exception', None)
         ok = kind == 'raised' and isinstance(v, ScalesError) and isinstance(inner, ttypes.VerifError) \
           and (inner.why, inner.code) == (expected[1], expected[2])
+      elif expected[0] == 'declared-other':
+        inner = getattr(v, 'inner_exception', None)
+        ok = kind == 'raised' and isinstance(v, ScalesError) and isinstance(inner, ttypes.OtherError) \
+          and (inner.detail, inner.n) == (expected[1], expected[2])
+      elif expected[0] == 'declared-third':
+        inner = getattr(v, 'inner_exception', None)
+        ok = kind == 'raised' and isinstance(v, ScalesError) and isinstance(inner, ttypes.ThirdError) \
+          and inner.tag == expected[1]
       elif expected[0] == 'app':
         inner = getattr(v, 'inner_exception', None)
         ok = kind == 'raised' and isinstance(v, ScalesError) and isinstance(inner, TApplicationException) \
@@ -264,6 +282,9 @@ class C14(BaseCheck):
         else:
           a_ = ('ok' + t_) if good else ('no' + t_)
           want_ = ('void',) if good else ('declared', a_, len(a_))
+        if not good and rng.random() < 0.4:     # another of the method's declared exceptions
+          a_ = 'OTHER:' + t_ + 'x'
+          want_ = ('declared-other', a_, len(a_) * 1000003)
         seq.append((m_, a_, want_))
       for m_, a_, want_ in seq:
         out.obligations += 1
@@ -276,6 +297,9 @@ class C14(BaseCheck):
           ok_ = got_ == ('ok', want_[1])
         elif want_[0] == 'void':
           ok_ = got_ == ('ok', None)
+        elif want_[0] == 'declared-other':
+          ok_ = got_[0] == 'raised' and isinstance(got_[1], ScalesError) and isinstance(inner_, ttypes.OtherError) \
+            and (inner_.detail, inner_.n) == (want_[1], want_[2])
         else:
           ok_ = got_[0] == 'raised' and isinstance(got_[1], ScalesError) and isinstance(inner_, ttypes.VerifError) \
             and (inner_.why, inner_.code) == (want_[1], want_[2])
